@@ -48,7 +48,6 @@ import (
 	"github.com/nuts-foundation/nuts-node/audit"
 	"github.com/nuts-foundation/nuts-node/core"
 	"github.com/nuts-foundation/nuts-node/jsonld"
-	"github.com/nuts-foundation/nuts-node/test/node"
 	"github.com/nuts-foundation/nuts-node/vcr"
 	"github.com/nuts-foundation/nuts-node/vcr/credential"
 	"github.com/nuts-foundation/nuts-node/vcr/holder"
@@ -91,7 +90,7 @@ func c01StartNode(t *testing.T) {
 	if c01N.started {
 		return
 	}
-	internal, public, sys := node.StartServer(t, func(_, _ string) {
+	internal, public, sys := vnStartServer(t, func(_, _ string) {
 		t.Setenv("NUTS_DIDMETHODS", "web,nuts")
 		t.Setenv("NUTS_VERBOSITY", "error")
 		t.Setenv("NUTS_INTERNALRATELIMITER", "false")
